@@ -291,7 +291,7 @@ pub fn scenario(seed: u64, rep: &mut Report) {
         rig.settle().await;
         responses.extend(collect_responses(rig.take_handler_in()));
         // ---- shutdown; the handler side goes away as the real one does ----
-        rig.discv5.shutdown();
+        std::sync::Arc::get_mut(&mut rig.discv5).expect("the rig is the only owner").shutdown();
         rig.settle().await;
         responses.extend(collect_responses(rig.take_handler_in()));
         rig.script = None;
